@@ -190,6 +190,7 @@ class Fn:
                                                               # local bound to a tuple display (its int literals are adapted to that type: `init_state = (lower, upper, 0)`)
     local_classes: dict = dataclasses.field(default_factory=dict)   # nested `class X(NamedTuple)`: name -> LocalClass (fields / defaults checked against the source)
     returns_none: bool = False   # a procedure (guards only, no `return`): the result is `()`
+    ret: object = None      # declared result type: every returned value is injected into it through the sheet's UPCAST (or refused)
 
 
 @dataclasses.dataclass
@@ -316,7 +317,8 @@ class Tr:
         self.ret = None
         self.unused = set()
         self.ctor_fields = None         # inside a `Ctor`: attribute name -> V of the `self.<f>` assigned so far
-        self.early = []                 # types of the values returned early (`if <e> is None: return r`)
+        self.early_types = []                 # types of the values returned early (`if <e> is None: return r`)
+        self.whole_body = False         # True while the statements of the function's own body (not of a branch) are translated
 
     # ------------------------------------------------------------------ helpers
     @property
@@ -556,6 +558,23 @@ class Tr:
         if isinstance(n, ast.List):
             if not n.elts:
                 return V(kind="empty")
+            if self.early and any(isinstance(e, ast.Starred) for e in n.elts):
+                # `[a, *xs, b]`: the concatenation of the singleton / starred parts, in order
+                parts, ety = [], None
+                for e in n.elts:
+                    if isinstance(e, ast.Starred):
+                        v = self.lean(self.ex(e.value))
+                        if not (isinstance(v.ty, tuple) and v.ty[0] == "List"):
+                            raise Refuse(f"starred element `{ast.unparse(e)[:40]}` of type {v.ty} in a list display")
+                        t, code = v.ty[1], paren(v.code)
+                    else:
+                        v = self.lean(self.ex(e))
+                        t, code = v.ty, f"[{v.code}]"
+                    if ety is not None and t != ety:
+                        raise Refuse("list display with elements of different types")
+                    ety = t
+                    parts.append(code)
+                return V(L(ety), " ++ ".join(parts))
             items = [self.lean(self.ex(e)) for e in n.elts]
             up = getattr(self.sheet, "UPCAST", {})
             if any(x.ty != items[0].ty for x in items) and all(x.ty in up for x in items):
@@ -859,6 +878,13 @@ class Tr:
             return V(ret, code)
         f = n.func
         ftext = ast.unparse(f)
+        # ---- isinstance(e, Cls): a primitive whose second argument is the literal class name (its binding is checked)
+        if ftext == "isinstance" and getattr(self.sheet, "ISINSTANCE_PRIM", False) and "isinstance" in self.sheet.BUILTINS and "isinstance" not in self.env:
+            if len(n.args) != 2 or n.keywords or not isinstance(n.args[1], ast.Name) or n.args[1].id in self.env:
+                raise Refuse(f"`{text[:60]}`: only `isinstance(<expr>, <class name>)` is in the subset")
+            self.need_root("isinstance")
+            self.need_root(n.args[1].id)
+            return self.match_prim("call:isinstance", [(self.ex(n.args[0]), n.args[0]), (None, n.args[1])], what=text[:60])
         # ---- partial(self.<generated method>, kw=e, …): the method with those parameters fixed, as a function value
         if isinstance(f, ast.Name) and f.id in getattr(self.sheet, "PARTIAL_FUNCS", ()) and f.id not in self.env:
             self.need_root(f.id)
@@ -1324,7 +1350,7 @@ class Tr:
             self.pure_only -= 1
         var = self.tmp("v")
         self.blk.lines.append(("early_none", ov.code, var, val.code))
-        self.early.append(val.ty)
+        self.early_types.append(val.ty)
         self.narrow[key] = V(ov.ty[1], var)
 
     def do_assert(self, st):
@@ -1346,9 +1372,10 @@ class Tr:
                 if isinstance(x, ast.Name) and isinstance(x.ctx, ast.Store) and x.id not in out:
                     out.append(x.id)
                 if isinstance(x, ast.Expr) and isinstance(x.value, ast.Call) and isinstance(x.value.func, ast.Attribute) \
-                        and x.value.func.attr == "append" and isinstance(x.value.func.value, ast.Name) and x.value.func.value.id not in out:
+                        and x.value.func.attr in ("append", "extend") and isinstance(x.value.func.value, ast.Name) and x.value.func.value.id not in out:
                     out.append(x.value.func.value.id)
-                if isinstance(x, (ast.FunctionDef, ast.Lambda, ast.While, ast.Break, ast.Continue, ast.Return, ast.Global, ast.Nonlocal, ast.Try, ast.With)):
+                if isinstance(x, (ast.FunctionDef, ast.Lambda, ast.While, ast.Break, ast.Continue, ast.Return, ast.Global, ast.Nonlocal, ast.Try, ast.With, ast.Raise, ast.Yield, ast.YieldFrom)) \
+                        and not (isinstance(x, ast.Raise) and not getattr(self.sheet, "EARLY_RETURN", False)):
                     raise Refuse(f"{type(x).__name__} inside a loop body")
         return out
 
@@ -1569,6 +1596,134 @@ class Tr:
         out.append(f"{self.M('pure')} {paren(final)}" if monadic and final_pure else final)
         return ("\n" + indent).join(out) if multi else " ".join(out)
 
+    @property
+    def early(self):
+        return bool(getattr(self.sheet, "EARLY_RETURN", False))
+
+    def upcast(self, v, ty):
+        """`v` injected into the declared result type `ty` (identity, or an entry of the sheet's UPCAST)"""
+        v = self.lean(v, "return value")
+        if v.ty == ty:
+            return v
+        up = getattr(self.sheet, "UPCAST", {})
+        if v.ty in up and up[v.ty][0] == ty:
+            return V(ty, up[v.ty][1].format(paren(v.code)))
+        raise Refuse(f"a value of type {v.ty} is returned where {ty} is declared")
+
+    def do_early_return(self, st, rest):
+        """`if c: <stmts>; return e` + the rest of the function body (which ends in `return` / `raise` on every path).  `c` may be
+        `isinstance(<name>, cls)` with a narrowing entry in the sheet: a `match` that rebinds the name in the branch."""
+        if self.pure_only:
+            raise Refuse("early return inside a lambda / conditional expression")
+        t = st.test
+        nar = None
+        tab = getattr(self.sheet, "ISINSTANCE_NARROW", {})
+        if isinstance(t, ast.Call) and ast.unparse(t.func) == "isinstance" and "isinstance" not in self.env and len(t.args) == 2 and not t.keywords \
+                and isinstance(t.args[0], ast.Name) and isinstance(t.args[1], ast.Name) and t.args[0].id in self.env and t.args[1].id not in self.env:
+            old = self.env[t.args[0].id]
+            if old.kind == "lean" and (old.ty, t.args[1].id) in tab:
+                self.need_root("isinstance")
+                self.need_root(t.args[1].id)
+                nar = (t.args[0].id, old) + tuple(tab[(old.ty, t.args[1].id)])
+
+        def sub(stmts, extra=None):
+            saved = (self.blk, dict(self.env), dict(self.narrow), self.ret)
+            self.blk, self.ret = Block(), None
+            if extra:
+                self.env.update(extra)
+            try:
+                self.block(stmts, top=True)
+                if self.ret is None:
+                    raise Refuse("a path through the function does not end in `return` / `raise`")
+                return self.blk, self.ret
+            finally:
+                self.blk, self.env, self.narrow, self.ret = saved
+
+        if nar is not None:
+            name, old, newty, ctor = nar
+            var = self.tmp("v")
+            r1 = sub(st.body, {name: V(newty, var)})
+            heads = (f"match {old.code} with | {ctor} {var} => ", " | _ => ")
+        else:
+            c = self.coerce(self.ex(t), BOOL)
+            r1 = sub(st.body)
+            heads = (f"if {c.code} then ", " else ")
+        if not rest:
+            raise Refuse("nothing follows the early return (the function would return None)")
+        r2 = sub(rest)
+        want = self.fn.ret
+
+        def fix(v):
+            if v.kind == "raise":
+                return v
+            return self.upcast(v, want) if want is not None else self.lean(v, "return value")
+
+        a, b = fix(r1[1]), fix(r2[1])
+        tys = {x.ty for x in (a, b) if x.kind != "raise"}
+        if len(tys) != 1:
+            raise Refuse(f"the paths of the function return values of different types ({[x.ty for x in (a, b) if x.kind != 'raise']})")
+        ty = tys.pop()
+
+        def value(blk, v):
+            if v.kind == "raise":
+                return "(" + self.compose(blk.lines, v.code, True, final_pure=False, multi=False) + ")"
+            return "(" + self.compose(blk.lines, v.code, True, final_pure=True, multi=False) + ")"
+
+        expr = heads[0] + value(r1[0], a) + heads[1] + value(r2[0], b)
+        self.ret = self.emit_bind(self.tmp(), ty, expr)
+
+    def do_while(self, st):
+        """`while c: body` — iteration of the body on the variables it assigns that exist before the loop (the sheet monad's `while`:
+        see the world); the test is a pure expression of those variables; no `break` / `continue` / `return` / `raise` inside"""
+        if st.orelse:
+            raise Refuse("`while … else`")
+        if self.pure_only:
+            raise Refuse("a loop inside a lambda / conditional expression")
+        assigned = self.assigned_names(st.body)
+        for nm in assigned:
+            if nm in self.env and self.env[nm].kind != "lean":
+                raise Refuse(f"the loop body assigns `{nm}`, which is not a value")
+        carried = [nm for nm in assigned if nm in self.env and self.env[nm].kind == "lean"]
+        if not carried:
+            raise Refuse("a `while` loop that carries no variable")
+        if any(re.search(rf"\b{re.escape(nm)}\b", k) for nm in carried for k in self.narrow):
+            raise Refuse("a carried variable is narrowed")
+        tys = [self.env[nm].ty for nm in carried]
+        acc_ty = tys[0] if len(carried) == 1 else T(*tys)
+        acc = self.tmp("acc")
+        init = ", ".join(self.env[nm].code for nm in carried)
+        init = init if len(carried) == 1 else f"({init})"
+        saved = (self.blk, dict(self.env), dict(self.narrow))
+        try:
+            self.blk = Block()
+            for i, nm in enumerate(carried):
+                self.env[nm] = V(tys[i], proj(acc, i, len(carried)))
+            self.pure_only += 1
+            try:
+                c = self.coerce(self.ex(st.test), BOOL)
+            finally:
+                self.pure_only -= 1
+            if self.blk.lines:
+                raise Refuse("the test of a `while` loop is not a pure expression")
+            self.blk = Block()
+            for i, nm in enumerate(carried):
+                self.env[nm] = self.emit_let(self.lname(nm), V(tys[i], proj(acc, i, len(carried))))
+            self.block(st.body, in_branch=True)
+            for i, nm in enumerate(carried):
+                v = self.env.get(nm)
+                if v is None or v.kind != "lean" or v.ty != tys[i]:
+                    raise Refuse(f"the loop body changes the type of `{nm}` (or leaves it undefined on a path)")
+            final = ", ".join(self.env[nm].code for nm in carried)
+            final = final if len(carried) == 1 else f"({final})"
+            body = self.compose(self.blk.lines, final, True, multi=False)
+        finally:
+            self.blk, self.env, self.narrow = saved
+        aty = self.ty(acc_ty)
+        t = self.tmp()
+        self.emit_bind(t, acc_ty, f"{self.M('while')} (fun ({acc} : {aty}) => {c.code}) (fun ({acc} : {aty}) => {body}) {paren(init)}")
+        for i, nm in enumerate(carried):
+            self.bind_name(nm, V(tys[i], proj(t, i, len(carried))))
+
     def do_def(self, st):
         spec = self.nested.get(st.name)
         if spec is None:
@@ -1614,8 +1769,34 @@ class Tr:
                 continue
             if isinstance(st, ast.Assign):
                 self.do_assign(st)
-            elif top and self.is_early_none_return(st):
+            elif top and not self.early and self.is_early_none_return(st):
                 self.do_early_none_return(st)
+            elif self.early and top and isinstance(st, ast.If) and not st.orelse and st.body and isinstance(st.body[-1], ast.Return):
+                # `if c: …; return e` followed by the rest of the function: the function's value is a conditional
+                self.do_early_return(st, stmts[i + 1:])
+                return
+            elif self.early and top and last and isinstance(st, ast.Raise):
+                self.ret = V(kind="raise", code=self.raise_term(st))
+            elif self.early and top and last and isinstance(st, ast.Expr) and isinstance(st.value, ast.YieldFrom) and self.whole_body \
+                    and len([b for b in stmts if not (isinstance(b, ast.Expr) and isinstance(b.value, ast.Constant))]) == 1:
+                # a generator whose whole body is `yield from xs`: iterating it yields the elements of the list `xs` in order
+                v = self.lean(self.ex(st.value.value), "iterable")
+                if not (isinstance(v.ty, tuple) and v.ty[0] == "List"):
+                    raise Refuse(f"`yield from` a value of type {v.ty}")
+                self.ret = v
+            elif self.early and isinstance(st, ast.While):
+                self.do_while(st)
+            elif self.ext and isinstance(st, ast.Expr) and isinstance(st.value, ast.Call) and isinstance(st.value.func, ast.Attribute) \
+                    and st.value.func.attr == "extend" and isinstance(st.value.func.value, ast.Name):
+                # xs.extend(ys) on a declared LOCAL list: xs = xs ++ ys
+                nm = st.value.func.value.id
+                cur = self.env.get(nm)
+                if cur is None or cur.kind != "lean" or not (isinstance(cur.ty, tuple) and cur.ty[0] == "List") or nm not in self.fn.locals:
+                    raise Refuse(f"`{nm}.extend` on something that is not a declared local list")
+                if len(st.value.args) != 1 or st.value.keywords:
+                    raise Refuse("arguments of `.extend`")
+                e = self.coerce(self.ex(st.value.args[0]), cur.ty)
+                self.bind_name(nm, V(cur.ty, f"{paren(cur.code)} ++ {paren(e.code)}"))
             elif isinstance(st, ast.If):
                 self.do_if(st)
             elif isinstance(st, ast.For):
@@ -1716,14 +1897,19 @@ class Tr:
         self.enter()
         if is_method and self.self_ty is not None:
             self.env["self"] = V(self.self_ty, "self_")
+        self.whole_body = True
         self.block(self.node.body, top=True)
         if self.ret is None and nested_kind is None and fn.returns_none:
             self.ret = V("Unit", "()")   # a procedure: falls off the end, returning None
         if self.ret is None:
             raise Refuse("function does not end in `return`")
-        for t in self.early:
+        for t in self.early_types:
             if t != self.ret.ty:
                 raise Refuse(f"an early `return` of type {t} in a function returning {self.ret.ty}")
+        if self.ret.kind == "raise":
+            raise Refuse("function ends in an unconditional `raise`")
+        if fn.ret is not None and nested_kind is None:
+            self.ret = self.upcast(self.ret, fn.ret)
         monadic = self.blk.monadic
         body = self.compose(self.blk.lines, self.ret.code, monadic)
         caps = self.captured(body) if nested_kind is not None else []
@@ -2060,15 +2246,18 @@ class Gen:
             self.fields[(head, f)] = t
         for cname, want in getattr(sheet, "CLASS_FIELDS", {}).items():
             # the annotated fields of a class whose structure is hand-declared in the world must be exactly the sheet's
+            cfile = sheet.FILE
+            if isinstance(want, tuple):
+                cfile, want = want
             try:
-                found = [x for x in self.tree(sheet.FILE).body if isinstance(x, ast.ClassDef) and x.name == cname]
+                found = [x for x in self.tree(cfile).body if isinstance(x, ast.ClassDef) and x.name == cname]
                 if len(found) != 1:
                     raise Refuse(f"class `{cname}` is defined {len(found)} times")
                 have = [st.target.id for st in found[0].body if isinstance(st, ast.AnnAssign) and isinstance(st.target, ast.Name)]
                 if have != list(want):
                     raise Refuse(f"class `{cname}` declares the fields {have}, the sheet expects {list(want)}")
             except (Refuse, OSError, SyntaxError) as ex:
-                errors.append({"target": cname, "error": f"{sheet.FILE}::{cname}: {ex}"})
+                errors.append({"target": cname, "error": f"{cfile}::{cname}: {ex}"})
                 self.emit(f"-- UNTRANSLATABLE class {cname}: {ex}\n")
         for item in sheet.ITEMS:
             mark = len(self.out)
@@ -2125,7 +2314,7 @@ class Gen:
         return {"text": text, "errors": errors, "targets": [i.lean for i in sheet.ITEMS]}
 
 
-SHEETS = ["targets_losses", "targets_dist_public", "targets_jaxtr", "targets_families", "targets_bnafnet", "targets_net", "targets_unwrap", "targets_bisectgen"]
+SHEETS = ["targets_losses", "targets_dist_public", "targets_jaxtr", "targets_families", "targets_bnafnet", "targets_net", "targets_unwrap", "targets_bisectgen", "targets_merge"]
 
 
 def generate(repo: str) -> dict:
